@@ -76,11 +76,13 @@ func runC06(c *hc.Ctx) error {
 			if !g.inGrid(poly) {
 				continue
 			}
-			r := runSnap(g, poly, []int{id}, randCfg(c.Rng), 20*time.Second)
+			dcfg := randCfg(c.Rng)
+			r := runSnap(g, poly, []int{id}, dcfg, 20*time.Second)
 			c.Sum.Evaluations++
 			c.Count("deeper than level 32")
+			c.Case("SnapC ("+snapCaseTerm(g, poly, []int{id}, dcfg, r)+")", caseJSON(g, poly, []int{id}, dcfg, r))
 			if r.Panic != "" {
-				v := hc.Violation{What: "SnapPolygon panicked on an in-grid polygon: " + r.Panic, Input: caseJSON(g, poly, []int{id}, randCfg(c.Rng), nil), Observed: r.PanicMsg}
+				v := hc.Violation{What: "SnapPolygon panicked on an in-grid polygon: " + r.Panic, Input: caseJSON(g, poly, []int{id}, dcfg, nil), Observed: r.PanicMsg}
 				if r.Panic == "MustToZ" && g.Deep > 32 {
 					v.KnownFinding = "F11"
 					v.What = fmt.Sprintf("tile matrices deeper than level 32 cannot be snapped: MustToZ panics (e.g. %s id %d = level %d) (F11)", name, id, g.Deep)
